@@ -25,11 +25,29 @@ def run(chk):
         "crc::CRC_32_ISCSI, 'XXH3-64' -> xxh3_64) and to no sibling literal's name; R27b the validator table (variants()/VALID_*) equals the dispatched "
         "set, so the `unreachable!` fall-through of sha2/sha3 really is unreachable; R27c md5/sha1/seahash reach their own crate; R27d a digest (result of a hasher's checksum/finalize/hash/xxh* call) is never narrowed by an integer cast before it is rendered (a narrowing `as` keeps the low bits only: the wide CRCs / 128-bit hashes would no longer match). Undecided: the algorithms.")
     M = fmap.FMap(facts)
-    for fn, cfg in DISPATCHERS.items():
-        b = chk.anchor(fn, "R27a")
+    for fn0, cfg in DISPATCHERS.items():
+        # the dispatch normally lives in the helper named like the function; after a refactor it may live in another body of the same
+        # module (e.g. a constructor of a keyed-hasher enum): take the module's body with the largest literal dispatch
+        fn, b, disp = fn0, None, {}
+        if facts.has(fn0):
+            b = facts.body(fn0)
+            disp = trie.literal_dispatch(facts, b)
+        if len(disp) < cfg["floor"]:
+            mod = fn0.rsplit("::", 1)[0] + "::"
+            best = None
+            for n in facts.names(lambda n: (n.startswith(mod) or n.startswith("<" + mod)) and "::tests::" not in n and "::test::" not in n):
+                nb = facts.body(n)
+                if nb.kind in ("const", "static", "promoted"):
+                    continue
+                dd = trie.literal_dispatch(facts, nb)
+                if len(dd) >= cfg["floor"] and (best is None or len(dd) > len(best[2])):
+                    best = (n, nb, dd)
+            if best is not None:
+                fn, b, disp = best
+                chk.note("R27a", "dispatch of %s found in %s" % (fn0, fn))
         if b is None:
+            chk.fail_closed("R27a", "anchor not found: %s (and no body of its module holds a literal dispatch)" % fn0)
             continue
-        disp = trie.literal_dispatch(facts, b)
         sigs = trie.leaf_signatures(facts, b, disp)
         rid = "R27a"
         chk.rule(rid, "each variant literal's leaf instantiates the algorithm of that name (and of no sibling)", floor=115)
